@@ -531,6 +531,7 @@ class Program:
             except Exception:
                 Program._ANCHORS = {}
         self.anchor_table = Program._ANCHORS.get(cfg) or {}
+        self.field_renames = self._resolve_field_renames(facts)
         self.fns = {}
         self.by_path = defaultdict(list)
         for f in facts["fns"]:
@@ -550,6 +551,64 @@ class Program:
 
     _ANCHORS = None
 
+    def _resolve_field_renames(self, facts):
+        """private struct fields renamed (same type path, same number, order and types of fields, different names): the facts
+        are rewritten to the names the rule base knows"""
+        pinned = (self.anchor_table or {}).get("#adts") or {}
+        if not pinned:
+            return {}
+        ren = {}      # adt path -> {idx: (new, old)}
+        keep = set()  # (idx, name) pairs of fields that were NOT renamed anywhere
+        for a in facts["adts"]:
+            old = pinned.get(a["path"])
+            for vi, v in enumerate(a["variants"]):
+                names = [f["name"] for f in v["fields"]]
+                types = [f["t"] for f in v["fields"]]
+                o = old[vi] if old and vi < len(old) else None
+                if o and len(o[0]) == len(names) and o[1] == types and o[0] != names and a.get("kind") == "Struct" and all(not str(f.get("vis") or "").startswith("Public") or o[0][i] == names[i] for i, f in enumerate(v["fields"])):
+                    for i, (n_, o_) in enumerate(zip(names, o[0])):
+                        if n_ != o_:
+                            ren.setdefault(a["path"], {})[i] = (n_, o_)
+                        else:
+                            keep.add((i, n_))
+                else:
+                    for i, n_ in enumerate(names):
+                        keep.add((i, n_))
+        if not ren:
+            return {}
+        pair = {}
+        for pth, m in ren.items():
+            for i, (n_, o_) in m.items():
+                if (i, n_) in keep or pair.get((i, n_), o_) != o_:
+                    return {}          # ambiguous: a field of that index and name exists unrenamed elsewhere
+                pair[(i, n_)] = o_
+        for a in facts["adts"]:
+            if a["path"] in ren:
+                for v in a["variants"]:
+                    for i, f in enumerate(v["fields"]):
+                        if i in ren[a["path"]]:
+                            f["name"] = ren[a["path"]][i][1]
+
+        def rew(x):
+            if isinstance(x, list):
+                if len(x) == 3 and x[0] == "f" and isinstance(x[1], int) and isinstance(x[2], str) and (x[1], x[2]) in pair:
+                    x[2] = pair[(x[1], x[2])]
+                    return
+                if len(x) >= 5 and x[0] == "adt" and x[1] in ren and isinstance(x[4], list):
+                    for i, (n_, o_) in ren[x[1]].items():
+                        if i < len(x[4]) and x[4][i] == n_:
+                            x[4][i] = o_
+                for y in x:
+                    rew(y)
+            elif isinstance(x, dict):
+                for y in x.values():
+                    rew(y)
+        for f in facts["fns"]:
+            rew(f["blocks"])
+            for d_ in f.get("dbg", []):
+                rew(d_)
+        return ren
+
     def _resolve_renames(self):
         """A private function of the pinned tree that is missing now, while exactly one NEW private function of the same
         module has the identical signature, was renamed: the rule base keeps seeing it under the name it knows."""
@@ -562,7 +621,7 @@ class Program:
         table = Program._ANCHORS.get(self.cfg) or {}
         if not table:
             return
-        missing = [p_ for p_ in table if p_ not in self.by_path and not table[p_][1].startswith("Public")]
+        missing = [p_ for p_ in table if not p_.startswith("#") and p_ not in self.by_path and not table[p_][1].startswith("Public")]
         if not missing or len(missing) > 12:
             return
         new = [f for f in self.fns.values() if f.kind != "Closure" and f.path not in table and not str(f.raw.get("vis") or "").startswith("Public")]
